@@ -5,6 +5,7 @@ CONSTANTS
   MaxLog = 3
   NonCmdKinds = {}
   WarmStart = FALSE
+  MaxRestarts = 0
   UpgradeStrong = TRUE
   VerifyQuorum = TRUE
   RecheckTerm = FALSE
